@@ -40,6 +40,7 @@ class Harness:
         self.target = ""
         self.prop = ""
         self.solver = ""
+        self.repeat = ""            # native grids: run N times in separate processes and require identical VERIF-GRID-DIGEST lines
         self.heavy = ""             # "1": multi-GB CBMC run; such harnesses run at most 3 at a time
         self.unwindset = ""         # "regex=N;regex=N": per-loop bounds, resolved against `cbmc --show-loops`
 
@@ -522,9 +523,15 @@ def run_grids(ws, grids, logdir):
     open(empty, "w").write("")
     for h in grids:
         cmd = ["cargo", "test", "--offline", "-p", "trustfall_core", "--lib", f"{h.module}::verif_replay_entry", "--", "--exact", "--nocapture", "--test-threads", "1"]
-        with NativeTree(ws) as nws:
-            rc, o, wall, to, _ = run_cmd(cmd, nws, replay_env(h, empty), max(h.timeout, 1500))
-        open(os.path.join(logdir, f"grid-{h.name}.log"), "w").write(o)
+        digests = []
+        reps = int(h.repeat or 1)
+        for rep in range(reps):
+            with NativeTree(ws) as nws:
+                rc, o, wall, to, _ = run_cmd(cmd, nws, replay_env(h, empty), max(h.timeout, 1500))
+            open(os.path.join(logdir, f"grid-{h.name}{'-' + str(rep) if rep else ''}.log"), "w").write(o)
+            digests.append(re.findall(r"VERIF-GRID-DIGEST ([^\n]*)", o))
+            if rc != 0:
+                break
         m = re.search(r"VERIF-GRID-DONE " + re.escape(h.name) + r" cases=(\d+)", o)
         panics = re.findall(r"panicked at ([^\n]*):\n([^\n]*)", o)
         cases = re.findall(r"VERIF-GRID-CASE: ([^\n]*)", o)
@@ -537,6 +544,10 @@ def run_grids(ws, grids, logdir):
             at, msg = panics[-1]   # the uncaught one (grids may catch and record panics of individual cases)
             r.update(status="refuted", reason=f"{msg} @ {at} on case {cases[-1] if cases else '?'}", case=cases[-1] if cases else None, tail=o[-2500:],
                      failed=[dict(description=msg, category="native-assertion", function=h.full, location=dict(file=at))])
+        elif reps > 1 and rc == 0 and any(d != digests[0] for d in digests[1:]):
+            diff = [a for a, b in zip(digests[0], digests[-1]) if a != b][:3]
+            r.update(status="refuted", reason=f"results differ between two processes (different hash seeds): {diff}", case="process 1 vs process 2", tail="\n".join(diff),
+                     failed=[dict(description="nondeterministic across processes: " + "; ".join(d.split()[0] for d in diff), category="native-assertion", function=h.full, location=dict(file="(digest comparison)"))])
         elif m and int(m.group(1)) > 0 and rc == 0:
             r.update(status="pass", reason="")
         else:
